@@ -74,7 +74,7 @@ def normalize(ops, rate=0):
             if chokes >= 2:
                 continue
             chokes += 1
-            if out and out[-1][0] in "RC" or (out and out[-1] == "D:0"):
+            if out and out[-1][0] in "RCN" or (out and out[-1] == "D:0"):
                 out.append("W:0")
         out.append(o)
     # the library gets write opportunities (event_write with nothing accepted) while virtual time
@@ -84,10 +84,12 @@ def normalize(ops, rate=0):
     for j, o in enumerate(out):
         # lifting a snub unchokes at once (since /repo d278df5 the snub keeps the peer's interest), so a
         # D:0 after a D:1 must not have unflushed requests in front of it
-        if o == "D:0" and seen_choke and out2 and out2[-1][0] in "RC":
+        if o == "D:0" and seen_choke and out2 and out2[-1][0] in "RCN":
             out2.append("W:0")
+        if o == "N":
+            seen_choke = True
         # a keep-alive tick / quota grant acts on the library at once: no unflushed messages in front of it
-        if (o == "K" or o[0] == "Q") and out2 and (out2[-1][0] in "RC" or out2[-1] == "D:0"):
+        if (o == "K" or o[0] == "Q") and out2 and (out2[-1][0] in "RCN" or out2[-1] == "D:0"):
             out2.append("W:0")
         out2.append(o)
         if o == "D:1":
@@ -246,6 +248,8 @@ def gen_stream(r, L, mode, rate=0):
             ops.append("W:%s" % rk(r))
         elif c < 0.93:
             ops.append("K")
+        elif c < 0.94 and not rate:
+            ops.append("N")
         elif rate and c < 0.99:
             ops.append("Q:%d" % r.choice([0, 1, 500, 1023, 1024, 1025, 3000, 5000, 16384, 20000, r.randrange(0, 40000)]))
         elif c < 0.96:
@@ -272,6 +276,11 @@ HAND = [
     "D:0 R:0:0:100 W:0 C:0:0:100 W:inf",
     "D:0 R:0:0:100 R:1:0:100 W:0 C:1:0:100 W:inf",
     "D:0 R:0:0:131072 R:0:0:131073 R:0:1:131072 W:inf",
+    # the peer chokes itself (NOT_INTERESTED) right behind a request, before anything was uploaded; later it
+    # is unchoked again: the request must be gone
+    "D:0 W:inf R:0:0:100 N W:inf D:0 W:inf",
+    "D:0 R:0:0:100 R:1:0:50 N W:inf D:0 R:1:5:5 W:inf",
+    "D:0 R:0:0:100 W:inf R:0:100:100 N R:0:200:100 W:inf D:0 W:inf",
     # keep-alive ticks: idle, while the PIECE header is partly flushed, in the middle of the payload
     "D:0 R:0:0:100 W:9 K W:3 K W:inf K K W:2 W:inf",
     "D:0 W:inf K R:0:0:100 W:7 K W:0 K W:inf",
@@ -444,8 +453,8 @@ def oracle(case, line):
     reqs = []          # (triple, eligible, chokes_so_far)
     for o in opstr.split():
         k = o.split(":")
-        if k[0] == "D":
-            c = k[1] == "1"
+        if k[0] == "D" or k[0] == "N":
+            c = k[0] == "N" or k[1] == "1"
             if c != choked:
                 choked = c
                 if c:
